@@ -601,6 +601,9 @@ def scripted_histories(pw, bad, alg, halg, count, has_dec):
         [P, O, E, A, O, S, X, O, S, E, D, R, O, B, O, I, E, O, X, O],
         [P, A, E, dict(A, alg='eddsa'), X, O, E, S, A, R, O, I, O],
         [A, O, P, O, E, A, X, O],                                      # unprotected key: attach, then protect everything
+        # a subkey attached inside the scope, then a passphrase CHANGE inside the same scope: the new protection covers it too
+        [P, E, A, dict(P, pw=pw_json(bad)), O, X, O, I, O, dict(E, pw=pw_json(bad)), S, O, X, O],
+        [P, E, dict(A, alg='eddsa'), O, dict(P, pw=pw_json(bad), alg=alg), X, O, dict(E, pw=pw_json(bad)), D, X],
         # a3ce830: a refused protect (Plaintext / IDEA / Twofish256) leaves export and passphrase unchanged -- on an unprotected
         # key, on a locked key (warned before the cipher is looked at), and as a re-protect of an unlocked protected key
         [O, dict(P, alg=1), O, dict(P, alg=0), O, S, dict(P, alg=10), O, P, O, dict(P, alg=1), O, E, O, dict(P, alg=1, pw=pw_json(bad)), O, S,
@@ -687,6 +690,7 @@ def _run(ctx, d, pgpy):
 
     # ---- 4. mixed keys: unprotected subkeys under a protected primary (since e967622: unlock passes over them, on entry and on exit)
     mixed(ctx, d, pgpy, pws)
+    subkey_scopes(ctx, pgpy)
     lap['mixed'] = time.time() - t0
     ctx.notes.append('harness seconds: ' + ', '.join('%s %.1f' % kv for kv in lap.items()))
     if not ctx.quick:
@@ -908,6 +912,47 @@ def check_gnu(ctx, d, pgpy, suite, case, plain):
     if st[:2] != ['raised2', 'refused'] or st[4] != 'refused':
         ctx.fail(suite, 'model disagrees on the GNU-dummy history', dict(case, model=st)); ok = False
     return ok
+
+
+def subkey_scopes(ctx, pgpy):
+    """an unlock scope opened on a SUBKEY object of a protected key (PGPKey.unlock is reachable on every component): whatever it unlocks
+    is locked again when the scope ends - normally or by an exception -, no component keeps secret integers, nothing signs afterwards"""
+    from pgpy.constants import SymmetricKeyAlgorithm as SA, HashAlgorithm as HA
+    suite = 'subkey-scope'
+    for n in ('ed25519', 'rsa2048'):
+        try:
+            key = keypool.get(n)
+        except Exception:
+            continue
+        with warnings.catch_warnings():
+            warnings.simplefilter('ignore')
+            orig = [secret_ints(pk) for pk in pkts(key)]
+            key.protect('pw', SA.AES256, HA.SHA256)
+            for how in ('normal', 'exception'):
+                for idx, sub in enumerate(key.subkeys.values()):
+                    inside = None
+                    try:
+                        with sub.unlock('pw'):
+                            inside = [bool(c.is_unlocked) for c in pkts(key)]
+                            if how == 'exception':
+                                raise ValueError('inside the scope')
+                    except ValueError:
+                        pass
+                    except Exception as ex:
+                        ctx.fail(suite, 'unlock on a subkey object raised %r' % ex, {'suite': 'subscope', 'key': n, 'sub': idx, 'how': how}); continue
+                    case = {'suite': 'subscope', 'key': n, 'sub': idx, 'how': how, 'inside': inside}
+                    ctx.case(suite, (n, idx, how), sample=case)
+                    after = [bool(c.is_unlocked) for c in pkts(key)]
+                    left = [i for i, pk in enumerate(pkts(key)) if any(secret_ints(pk))]
+                    if any(after) or left:
+                        ctx.fail(suite, 'after an unlock scope opened on a subkey object ended (%s), components %s are still unlocked / hold secret integers %s'
+                                 % (how, [i for i, a in enumerate(after) if a], left), case)
+                    hits, _ = graph_secrets(key, [v for l in orig for v in l])
+                    if hits:
+                        ctx.fail(suite, 'secret integer reachable from the key after a subkey-object scope ended', dict(case, hits=hits[:3]))
+                    o = outcome(lambda: key.sign('after the scope'))
+                    if o[0] == 'ok':
+                        ctx.fail(suite, 'the key signs after a subkey-object scope ended', case)
 
 
 def mixed(ctx, d, pgpy, pws, only=None):
